@@ -156,8 +156,11 @@ func InitFourthB(e eps.T0, z zeta.T1) Fourth {
 `
 	}
 	// two unrelated packages processed in the same invocation
-	files["other1/o.go"] = "package other1\n\ntype X struct{}\n\nfunc NewX() X { return X{} }\n"
-	files["other1/wire.go"] = "//go:build wireinject\n// +build wireinject\n\npackage other1\n\nimport \"github.com/google/wire\"\n\nfunc InitX() X {\n\tpanic(wire.Build(NewX))\n}\n"
+	// it uses values of the same types and same-named imports as app, so that any table shared between packages shows
+	files["other1/o.go"] = "package other1\n\nimport bcfg \"example.com/m/beta/cfg\"\n\ntype X struct {\n\tS string\n\tN int\n\tL []string\n\tB bcfg.T0\n}\n"
+	files["other1/wire.go"] = "//go:build wireinject\n// +build wireinject\n\npackage other1\n\nimport (\n\tbcfg \"example.com/m/beta/cfg\"\n\t\"github.com/google/wire\"\n)\n\nfunc InitX() X {\n\tpanic(wire.Build(bcfg.Set, wire.Value(\"other\"), wire.Value(5), wire.Value([]string{\"o\"}), wire.Struct(new(X), \"*\")))\n}\n"
+	files["aaa/o.go"] = files["other1/o.go"][:0] + "package aaa\n\ntype X struct {\n\tS string\n\tN int\n}\n"
+	files["aaa/wire.go"] = "//go:build wireinject\n// +build wireinject\n\npackage aaa\n\nimport \"github.com/google/wire\"\n\nfunc InitX() X {\n\tpanic(wire.Build(wire.Value(\"first\"), wire.Value(9), wire.Struct(new(X), \"*\")))\n}\n"
 	files["other2/o.go"] = "package other2\n\nvar V = 1\n"
 	return files
 }
@@ -194,6 +197,7 @@ func checkC16(c *h.Check) {
 	viol := func(id, sym, detail string, files map[string]string) {
 		c.AddViolation(h.Violation{CaseID: id, Symptom: sym, Detail: detail}, files, nil)
 	}
+	confMismatch := ""
 	// ---------- Part 1: iteration orders ----------
 	for pv := 0; pv < nprog+1 && pv < 2; pv++ {
 		files := richProgram(pv)
@@ -229,8 +233,9 @@ func checkC16(c *h.Check) {
 			out, _ := os.ReadFile(filepath.Join(dir, genRel))
 			os.RemoveAll(dir)
 			if r.Exit != 0 || string(out) != b0 {
-				c.Internalf("conformance: instrumented and plain wire disagree on rich program %d (plain exit %d)", pv, r.Exit)
-				return
+				// either the rewriting changed more than the order (a bug of this tool) or the plain binary's
+				// random map order already changed the output; decided after the exploration below
+				confMismatch = fmt.Sprintf("conformance: instrumented (identity order) and plain wire disagree on rich program %d (plain exit %d)", pv, r.Exit)
 			}
 		}
 		// replay determinism: identity schedule twice gives identical bytes and visit trace
@@ -376,6 +381,10 @@ func checkC16(c *h.Check) {
 		if pv+1 >= nprog {
 			break
 		}
+	}
+	if confMismatch != "" && len(c.Violations) == 0 {
+		c.Internalf("%s, and no schedule changes the output: the instrumentation is not faithful", confMismatch)
+		return
 	}
 	// ---------- Part 2: configurations ----------
 	confRuns, confs := c16Configurations(c, thorough, viol)
